@@ -35,6 +35,15 @@ def run(ctx):
                                                 {"c": 0, "op": how}]})
                     cuts += 1
         counts["cut_pipelines"] = cuts
+        nw = 0
+        for name, args in COMPOSED + [("ECHO", [tok("str", "v1")])]:   # the client is gone when the reply is written (write failure)
+            for at in (0, 14, 20):
+                x = {"cls": "c20", "name": name, "args": args}
+                scenarios.append({"handler": "rec", "tracer": True, "nconns": 1,
+                                  "steps": [{"c": 0, "op": "wfail", "wfailat": at},
+                                            {"c": 0, "op": "send", "chunking": "whole", "reqs": [echo("t1"), x, echo("t2")]}, {"c": 0, "op": "halfclose"}]})
+                nw += 1
+        counts["write_failures"] = nw
     ctx.stage("generate")
     accepted, scs, lines = connlib.run_scenarios(ctx, scenarios, "c20")
     groups = connlib.report(ctx, accepted, scs, lines, None)
